@@ -140,3 +140,43 @@ def cut_shared(rng, lines, main_rel="m/main.conf"):
         files[posixpath.join(base, "w1.conf")] = ["%include shared.conf", "%include shared.conf"]
         main = lines[:i] + [ind + "%include w1.conf"] + lines[j:]
     return inline, main, files, [(main_rel, posixpath.join(base, "shared.conf"), "shared-" + shape, i, j)]
+
+
+def cut_tracked(rng, lines, ncuts, main_rel="m/main.conf"):
+    """like cut(), but also returns where every original line went: {original index: (relative path, 1-based line)}"""
+    import posixpath
+    import urllib.request
+    docs = {main_rel: [(i, l) for i, l in enumerate(lines)]}
+    placements = []
+    for k in range(ncuts):
+        rel = rng.choice(list(docs))
+        body = docs[rel]
+        texts = [t for _, t in body]
+        where = rng.choice(["same", "sub", "parent"])
+        ranges = [r for r in balanced_ranges(texts)
+                  if where == "same" or not any("%include" in l for l in texts[r[0]:r[1]])]
+        if not ranges:
+            continue
+        i, j = rng.choice(ranges)
+        name = "tfrag%d%s.conf" % (k, rng.choice(["", " x"]))
+        base = posixpath.dirname(rel)
+        if where == "same":
+            frel, arg = posixpath.join(base, name), name
+        elif where == "sub":
+            frel, arg = posixpath.join(base, "sub%d" % k, name), "sub%d/%s" % (k, name)
+        else:
+            if not base:
+                continue
+            frel, arg = posixpath.join(posixpath.dirname(base), name), "../" + name
+        frel = posixpath.normpath(frel)
+        docs[frel] = body[i:j]
+        ind = texts[i][: len(texts[i]) - len(texts[i].lstrip())]
+        docs[rel] = body[:i] + [(None, ind + "%include " + urllib.request.pathname2url(arg))] + body[j:]
+        placements.append((rel, frel, where, i, j))
+    where_is = {}
+    for rel, body in docs.items():
+        for n, (idx, _) in enumerate(body):
+            if idx is not None:
+                where_is[idx] = (rel, n + 1)
+    main = [t for _, t in docs.pop(main_rel)]
+    return main, {rel: [t for _, t in body] for rel, body in docs.items()}, placements, where_is
